@@ -8,13 +8,15 @@ start, `.reply` ↦ reply, a worker read after which a descriptor's counter went
 `dispatchAfterReply` (P1) and `lostWakeup` (P2).  The epilogue (everything runs free, the ring is activated again, one more
 kick) is judged by counting: the worker must be alive, the final kick on the active ring must be dispatched, a kick whose
 counter was consumed must have been followed by a handler call, nothing may stay readable on the current descriptor of the
-active, drained ring.  A failing run is identified by `key=<scenario>:<effective hold-point order up to the violation>`. -/
+active, drained ring.  Tag `n` is a SET_VRING_KICK with the no-descriptor flag (scenario `stopnf`): `Spec.KickDelivery`
+does not count it as a restart, so a handler entry after the reply of the preceding GET_VRING_BASE is a P1 violation
+whether it comes before, during or after that message; the restart of `stopnf` lies in the epilogue.  A failing run is identified by `key=<scenario>:<effective hold-point order up to the violation>`. -/
 namespace SpecDrv.Worker
 open DrvUtil Spec.KickDelivery
 
 def msgOfTag (t : String) : Option CMsg :=
   if t == "d" then some .disable else if t == "e" then some .enable else if t == "s" then some .stop
-  else if t == "r" then some .restart else if t == "x" then some .reset else none
+  else if t == "r" then some .restart else if t == "x" then some .reset else if t == "n" then some .nofd else none
 
 /-- some descriptor's bit went from 1 to 0 -/
 def consumedBit (before after : String) : Bool :=
